@@ -314,7 +314,11 @@ impl Node {
                 // Clone first, lock after: a waker clone is a scheduling point and
                 // a std mutex must never be held across one.
                 let w = poll_fn(|tcx| Poll::Ready(tcx.waker().clone())).await;
-                ctx.wakers.lock().unwrap().push(w);
+                if ctx.pool_closed.load(Ordering::SeqCst) {
+                    drop(w);
+                } else {
+                    ctx.wakers.lock().unwrap().push(w);
+                }
             }
             Op::ChaosWake { how } => {
                 // Runs on an executor thread (inside a handler), as NeXosim requires.
